@@ -390,3 +390,40 @@ package store
 //@   returns ok
 //@   pure
 //@   ensures [valid] {C10,C03} ok ==> validName(name)
+
+// ---- ignore list (C17). The first pattern is the built-in rule for Goit's own directory; IsIncluded anchors it. What that
+// pattern matches is stated as an axiom (assumed, like the characterisations of the constant regexps above): "^\.goit/.*"
+// matches exactly the paths that start with ".goit/".
+//@ pred builtinIgnore() := "\\.goit/.*"
+//@ pred wfIgnore(i) := len(i.paths) >= 1 && i.paths[0] == builtinIgnore()
+//@ axiom [builtin-pattern] forall t string {reMatch("^" + builtinIgnore(), t)} :: reMatch("^" + builtinIgnore(), t) <==> hasPrefix(t, ".goit/")
+//@ axiom [builtin-valid] validRegexp("^" + builtinIgnore())
+
+//@ func newIgnore
+//@   returns i
+//@   ensures [builtin] {C17} i != nil && fresh(i) && wfIgnore(i)
+
+//@ func Ignore.load
+//@   returns err
+//@   modifies Ignore.paths, $screst, $sctok, $rdpos
+//@   requires wfIgnore(i)
+//@   ensures [builtin-kept] {C17} wfIgnore(i)
+//@   ensures [others] forall x *Ignore :: x != i ==> x.paths == old(x.paths)
+//@   loop 0:
+//@     invariant wfIgnore(i)
+//@     invariant forall x *Ignore :: x != i ==> x.paths == old(x.paths)
+
+//@ func NewIgnore
+//@   returns i, err
+//@   modifies $screst, $sctok, $rdpos
+//@   ensures [result] {C17,C19} err == nil ==> i != nil && fresh(i) && wfIgnore(i)
+
+// Whatever else the list holds, a path inside Goit's own directory is always reported as ignored.
+//@ func Ignore.IsIncluded
+//@   returns res
+//@   pure
+//@   requires wfIgnore(i) && index != nil && wfIndex(index)
+//@   ensures [meta] {C17} hasPrefix(path, ".goit/") ==> res
+//@   loop 0:
+//@     invariant [first-rule] hasPrefix(path, ".goit/") ==> hasPrefix(target, ".goit/") && it == 0
+
